@@ -3,6 +3,7 @@ CONSTANT MaxLen = 7
 CONSTANT Instances = {"mem"}
 INVARIANT DepsExact
 INVARIANT ConflictsOrdered
+INVARIANT DepsJustified
 INVARIANT ReadsUnordered
 INVARIANT DepsEarlier
 INVARIANT PendingExact
